@@ -38,6 +38,10 @@ def run(ctx):
     items += sched.small_scenarios(ctx, "C04", 500 if quick else 10000, rng, size=(3, 7), cap=60 if quick else 600, salt=2, with_history=1.0,
                                    change_kinds=["edit", "edit", "edit_hdr", "touch", "cmd"], build_everything_first=True,
                                    feat=dict(deps=0.9, no_manifest_path=0.6, restat=0.15, chain=0.6, dyndep=0.0, phony=0.1, generator=0.0))
+    # commands that fail (with -k 1, 2, 3 and 0): nothing that needs an output of a failed command may start, whichever of its
+    # other producers finishes afterwards
+    items += sched.small_scenarios(ctx, "C04", 700 if quick else 12000, rng, size=(3, 7), cap=120 if quick else 1500, salt=3, faults=True,
+                                   feat=dict(order_only=0.5, deps=0.5, phony=0.2, restat=0.2, chain=0.6))
     sched.run_explore(ctx, "C04", items)
     # "its response file holds the declared content" on the real disk: a longer file may already be at that path (kept after a
     # failed command, kept by -d keeprsp, stale), the declared content may be empty
